@@ -108,10 +108,10 @@ def make_shards(prop, cfg, seed, tier, root):
         if prop == "C03":
             for h in gen.gen_c03_sweep(seed):
                 shards.append(h.text())
+    if prop == "C10":
+        shards.append("".join(h.text() for h in gen.gen_capacity_histories(seed)))
     for s in range(nshard):
         hs = gen_histories(prop, cfg, seed, s, nhist, tier)
-        if prop == "C10" and s == 0:
-            hs = gen.gen_capacity_histories(seed) + hs
         shards.append("".join(h.text() for h in hs))
     return shards
 
